@@ -993,6 +993,16 @@ static void wlLimits(Ctx& c, int nexec, int len, int maxDim)
          volatile bool flag = true; SolveOpts lim; lim.limited = true; lim.complete = false; optimize(c, o, lim, &flag);
          SolveOpts fin; optimize(c, o, fin); destroyObj(c, o);
       }
+      // two-stage stop: an iteration limit leaves a basis behind, then the interrupt flag is up while the limit is lifted
+      // (warm start), then the flag is lowered; also with a finite objective limit that is never reached
+      for(int variant = 0; variant < 2; variant++)
+      {
+         int o = newLoaded(c, L, cfg);
+         if(variant == 0) { setInt(c, o, "ITERLIMIT", SoPlex::ITERLIMIT, std::min(1, N)); SolveOpts lim; lim.limited = true; lim.complete = false; optimize(c, o, lim); setInt(c, o, "ITERLIMIT", SoPlex::ITERLIMIT, -1); }
+         else if(isOpt) { double far = optval + (L.sense == -1 ? 1.0 : -1.0) * (1e6 + std::fabs(optval)); if(L.sense == -1) setReal(c, o, "OBJLIMIT_UPPER", SoPlex::OBJLIMIT_UPPER, far); else setReal(c, o, "OBJLIMIT_LOWER", SoPlex::OBJLIMIT_LOWER, far); }
+         volatile bool flag = true; SolveOpts lim; lim.limited = true; lim.complete = false; optimize(c, o, lim, &flag);
+         flag = false; SolveOpts fin; fin.complete = (variant == 0); optimize(c, o, fin, &flag); destroyObj(c, o);
+      }
       // objective limits on both sides of the optimum
       if(isOpt)
          for(int side = -1; side <= 1; side += 2)
@@ -1896,6 +1906,46 @@ static void wlReaders(Ctx& c, int nexec, int len)
    }
 }
 
+// C16 in exact mode: one optimize() runs several floating-point solves; the iteration limit is a budget for the whole call
+static void wlLimitsQ(Ctx& c, int nexec, int len)
+{
+   for(int e = 0; e < nexec; e++)
+   {
+      T().line("{\"a\":\"Reset\"}");
+      c.objs.clear(); c.nextId = 0; g_wellScaled = false;
+      LPDataQ Q = genWitnessedQ(c.rng, 5, c.rng.coin(4, 5) ? "OPT" : "INF", true);
+      // an objective far below the floating-point tolerances: the first floating-point solve stops early and the pivots
+      // happen in the solves of the refinement rounds, so that the limit has to hold ACROSS the solves of one call
+      auto tiny = [&](LPDataQ& P) { Rational t(1); for(int i = 0; i < 40; i++) t /= Rational(2); for(auto& v : P.c) v *= t; for(auto& v : P.d) v *= t; for(auto& v : P.y) v *= t; };
+      int shape = c.rng.R(0, 3);
+      if(shape == 1) tiny(Q);
+      else if(shape >= 2 && Q.kind == "OPT")
+      {
+         // two independent blocks, the second with a tiny objective: pivots in the first solve AND in the refinement rounds
+         LPDataQ P = genWitnessedQ(c.rng, 3, "OPT", false);
+         if(P.sense != Q.sense) { P.sense = Q.sense; for(auto& v : P.c) v = -v; for(auto& v : P.d) v = -v; for(auto& v : P.y) v = -v; }
+         tiny(P);
+         for(auto& row : Q.A) row.resize(Q.n + P.n, Rational(0));
+         for(int i = 0; i < P.m; i++) { std::vector<Rational> row(Q.n + P.n, Rational(0)); for(int j = 0; j < P.n; j++) row[Q.n + j] = P.A[i][j]; Q.A.push_back(row); }
+         auto app = [](std::vector<Rational>& a, const std::vector<Rational>& b) { a.insert(a.end(), b.begin(), b.end()); };
+         app(Q.lhs, P.lhs); app(Q.rhs, P.rhs); app(Q.lo, P.lo); app(Q.up, P.up); app(Q.c, P.c); app(Q.x, P.x); app(Q.y, P.y); app(Q.d, P.d);
+         Q.n += P.n; Q.m += P.m;
+      }
+      unsigned long cfg = c.rng.g(); int family = c.rng.coin(1, 3) ? 2 : 0;
+      auto fresh = [&]() { int o = createObj(c); setInt(c, o, "SYNCMODE", SoPlex::SYNCMODE, SoPlex::SYNCMODE_AUTO);
+                           Rng saved = c.rng; c.rng = Rng(cfg); exactConfig(c, o, family); c.rng = saved; loadLPQ(c, o, Q); witnessQ(c, o, Q); return o; };
+      // termination of the unlimited solve is C03's business: an LP the exact solver does not decide within its time limit is skipped here
+      int base = fresh(); SolveOpts so; so.complete = false; int bst = optimizeQ(c, base, so); int N = c.objs[base]->numIterations(); destroyObj(c, base);
+      if(bst != (int)SPxSolver::OPTIMAL && bst != (int)SPxSolver::INFEASIBLE && bst != (int)SPxSolver::UNBOUNDED) continue;
+      for(int k = 0; k <= std::min(N, len); k++)
+      {
+         int o = fresh(); setInt(c, o, "ITERLIMIT", SoPlex::ITERLIMIT, k);
+         SolveOpts lim; lim.limited = true; lim.complete = false; optimizeQ(c, o, lim);
+         setInt(c, o, "ITERLIMIT", SoPlex::ITERLIMIT, -1); SolveOpts fin; fin.complete = true; optimizeQ(c, o, fin); destroyObj(c, o);
+      }
+   }
+}
+
 // ---------------------------------------------------------------- C14: basis files
 static std::string fileTokens(const std::string& fn)
 {
@@ -2164,6 +2214,7 @@ static int runWorkload(Ctx& c, const std::string& wl, int len)
    else if(wl == "basfile") wlBasFile(c, 1, len);
    else if(wl == "exact") wlExact(c, 1, len, 5);
    else if(wl == "exactbig") wlExact(c, 1, len, 12);
+   else if(wl == "limitsq") { wlLimitsQ(c, 1, len); }
    else if(wl == "readers") { wlReaders(c, 1, len); }
    else if(wl == "presolve") { wlPresolve(c, 1, len); }
    else if(wl == "cint") { wlCInt(c, 1, len); }
